@@ -27,6 +27,12 @@ PROPS = {
         'scans': [{'name': 'A1.builder_helpers_do_not_read_base', 'kind': 'no_token_in_fns',
                    'file': 'oal-openapi/src/lib.rs', 'impl': 'impl Builder', 'token': r'\bbase\b',
                    'except': ['new', 'with_base', 'into_openapi', 'default_base']}],
+        'technique': 'Verus function contracts (frame postconditions) on the extracted real Builder methods',
+        'level_text': 'Deductive proof (Verus/Z3), for every base document and every program: the three real Builder methods are '
+                      'verified against a per-field frame contract; field lists are regenerated from the vendored openapiv3 source each run.',
+        'level_note': 'Trusted: all_paths/all_components/default_base are functions of self.spec only (uninterpreted contracts + token scan A1); '
+                      'Components::default() is a constant; the CLI glue that parses the base file and calls with_base; serde_yaml.',
+        'design_ref': 'DESIGN.md section 5, C14',
         'explanation': 'Frame contract on the real Builder::{new,with_base,into_openapi}: every field of the OpenAPI object '
                        'and of Components (field lists generated from the vendored openapiv3 source on each run) other than '
                        'paths / components.schemas equals the base document\'s; paths and schemas are functions of the program only.',
@@ -38,6 +44,29 @@ PROPS = {
         ],
         'not_decided': [],
     },
+}
+
+
+HOOK_COMMITS = []
+
+NOT_APPLICABLE = {
+    'C02': 'needs an independent reference semantics of the whole language and a relational proof over evaluator + emitter (25 mutually recursive eval_* over an external arena, Rc, serde_yaml); no function contract within reach decides "nothing dropped or re-attached" for programs',
+    'C05': 'hyperproperty relating the outputs of two programs (before/after a rewrite); a contract speaks about one call, and a product encoding would need the whole pipeline inside the verifier',
+    'C06': 'byte-identical output is functional determinism of the whole path source -> YAML including serde_yaml and HashMap iteration order; a data-flow discipline, not a contract on a function',
+    'C08': 'lexical binding is a relation between every use and every binder established by resolve\'s walk over generational_indextree with RefCell writes and honoured by the evaluator\'s dynamic stack; Verus rejects the iterator/closure code and Kani does not finish on HashMap<Rc<str>,..> scopes',
+    'C09': 'invariant of the evaluator\'s refs table across eval_declaration/eval_recursion/eval_application (the latter uses closures capturing &mut, rejected by Verus); cycles_check alone would give termination of the check, not the property',
+    'C12': 'every parser production is a closure combinator over &mut Context (rejected by Verus: closures capturing a mutable reference); Kani on parse_program with three symbolic tokens did not finish in 30 min; the linear bound needs ghost accounting through that same code',
+    'C13': 'exit status, stderr and "target file untouched" are effects of a process over the file system reached through &self unit structs; agreement of three front ends is relational',
+    'C17': 'defined against the binding relation (C08, not available) for every cursor position, answered by the running server',
+    'C18': 'rename correctness is alpha-equivalence of two whole programs (C05 shape) and depends on the resolver invariant (C08)',
+    'C01': 'contract not completed yet (see DESIGN.md section 5, C01)',
+    'C03': 'contract not completed yet',
+    'C04': 'contract not completed yet',
+    'C07': 'contract not completed yet',
+    'C10': 'contract not completed yet',
+    'C11': 'contract not completed yet',
+    'C15': 'contract not completed yet',
+    'C16': 'contract not completed yet',
 }
 
 
